@@ -209,7 +209,8 @@ impl World {
             kind,
             prefix: prefix.to_string(),
             native_prefix: native_prefix.to_string(),
-            now_ns: 1_700_000_000u64 * 1_000_000_000,
+            // real block times are not whole seconds
+            now_ns: 1_700_000_000u64 * 1_000_000_000 + 123_456_789,
             height: 1000,
             tx_index: 0,
             tx_counter: 0,
